@@ -475,3 +475,177 @@ Example C01_src_div_rem_nonvacuous :
   Nat.ltb 300 (length (snd (l_uint_div_rem 3 [1; 2; 3] [5; 6; 0]))) = true /\
   pubview (snd (l_uint_div_rem 3 [1; 2; 3] [5; 6; 0])) = pubview (snd (l_uint_div_rem 3 [2 ^ 64 - 1; 0; 2 ^ 63] [0; 0; 1])).
 Proof. vm_compute. split; reflexivity. Qed.
+
+(** ** Groups added to the translator after the first 135 kernels: square root, almost-Montgomery multiplication, special-modulus
+    multiplication, signed division fronts (Src/LeakSqrtP.v, LeakAmmP.v, LeakMulModP.v, LeakIntDivP.v).
+    Uint::sqrt / wrapping_sqrt and every division front rest on Uint::div_rem and the constant-time shifts, so their statement is
+    up to [pubview] like that of Uint::div_rem, with the machine-checked witness that the strict trace varies.
+    Uint::mul_mod_special calls the EXTERN `Uint::split_mul` (not translated): it is the parameter [lx] returning (value, trace), and
+    the theorem ASSUMES [lx_public lx] -- the trace of lx depends on the limb count and the lengths of its arguments only.
+    NonZero::new_unwrap branches on `n != 0`: the divisor of a division front is a NonZero by type, stated as the hypotheses
+    [nz_limb] / [nz_uint] / [nz_int] (the test of the source text returns true), under which the branch is the same in both runs. *)
+From CB Require Import Src.LeakSqrt Src.LeakSqrtP Src.LeakAmm Src.LeakAmmP Src.LeakMulMod Src.LeakMulModP.
+
+(** ** Src/LeakSqrt.v *)
+Theorem C01_src_uint_LOG2_BITS_ni : forall N, snd (l_uint_LOG2_BITS N) = snd (l_uint_LOG2_BITS N).
+Proof. exact (@l_uint_LOG2_BITS_ni). Qed.
+Print Assumptions C01_src_uint_LOG2_BITS_ni.
+Theorem C01_src_uint_sqrt_ni : forall N self1 self2, length self1 = length self2 ->
+  pubview (snd (l_uint_sqrt N self1)) = pubview (snd (l_uint_sqrt N self2)).
+Proof. exact (@l_uint_sqrt_pv). Qed.
+Print Assumptions C01_src_uint_sqrt_ni.
+Theorem C01_src_uint_sqrt_strict_refuted : exists N self1 self2, length self1 = length self2 /\ snd (l_uint_sqrt N self1) <> snd (l_uint_sqrt N self2).
+Proof. exact l_uint_sqrt_strict_refuted. Qed.
+Print Assumptions C01_src_uint_sqrt_strict_refuted.
+Theorem C01_src_uint_wrapping_sqrt_ni : forall N self1 self2, length self1 = length self2 ->
+  pubview (snd (l_uint_wrapping_sqrt N self1)) = pubview (snd (l_uint_wrapping_sqrt N self2)).
+Proof. exact (@l_uint_wrapping_sqrt_pv). Qed.
+Print Assumptions C01_src_uint_wrapping_sqrt_ni.
+Theorem C01_src_uint_wrapping_sqrt_strict_refuted : exists N self1 self2, length self1 = length self2 /\ snd (l_uint_wrapping_sqrt N self1) <> snd (l_uint_wrapping_sqrt N self2).
+Proof. exact l_uint_wrapping_sqrt_strict_refuted. Qed.
+Print Assumptions C01_src_uint_wrapping_sqrt_strict_refuted.
+
+(** ** Src/LeakAmm.v *)
+Theorem C01_src_limb_wrapping_add_ni : forall (self1 : Z) (rhs1 : Z) (self2 : Z) (rhs2 : Z), snd (l_limb_wrapping_add self1 rhs1) = snd (l_limb_wrapping_add self2 rhs2).
+Proof. exact (@l_limb_wrapping_add_ni). Qed.
+Print Assumptions C01_src_limb_wrapping_add_ni.
+Theorem C01_src_add_mul_carry_ni : forall z1 x1 y1 z2 x2 y2, length z1 = length z2 -> length x1 = length x2 ->
+  snd (l_add_mul_carry z1 x1 y1) = snd (l_add_mul_carry z2 x2 y2).
+Proof. exact (@l_add_mul_carry_ni). Qed.
+Print Assumptions C01_src_add_mul_carry_ni.
+Theorem C01_src_add_mul_carry_and_shift_ni : forall z1 x1 y1 z2 x2 y2, length z1 = length z2 -> length x1 = length x2 ->
+  snd (l_add_mul_carry_and_shift z1 x1 y1) = snd (l_add_mul_carry_and_shift z2 x2 y2).
+Proof. exact (@l_add_mul_carry_and_shift_ni). Qed.
+Print Assumptions C01_src_add_mul_carry_and_shift_ni.
+Theorem C01_src_conditional_sub_ni : forall z1 x1 c1 z2 x2 c2, length z1 = length z2 -> length x1 = length x2 ->
+  snd (l_conditional_sub z1 x1 c1) = snd (l_conditional_sub z2 x2 c2).
+Proof. exact (@l_conditional_sub_ni). Qed.
+Print Assumptions C01_src_conditional_sub_ni.
+Theorem C01_src_almost_montgomery_mul_ni : forall z1 x1 y1 m1 k1 z2 x2 y2 m2 k2, length z1 = length z2 -> length x1 = length x2 -> length y1 = length y2 -> length m1 = length m2 ->
+  snd (l_almost_montgomery_mul z1 x1 y1 m1 k1) = snd (l_almost_montgomery_mul z2 x2 y2 m2 k2).
+Proof. exact (@l_almost_montgomery_mul_ni). Qed.
+Print Assumptions C01_src_almost_montgomery_mul_ni.
+Theorem C01_src_almost_montgomery_mul_by_one_ni : forall z1 x1 m1 k1 z2 x2 m2 k2, length z1 = length z2 -> length x1 = length x2 -> length m1 = length m2 ->
+  snd (l_almost_montgomery_mul_by_one z1 x1 m1 k1) = snd (l_almost_montgomery_mul_by_one z2 x2 m2 k2).
+Proof. exact (@l_almost_montgomery_mul_by_one_ni). Qed.
+Print Assumptions C01_src_almost_montgomery_mul_by_one_ni.
+
+(** ** Src/LeakMulMod.v *)
+Theorem C01_src_uint_double_mod_ni : forall N self1 p1 self2 p2, snd (l_uint_double_mod N self1 p1) = snd (l_uint_double_mod N self2 p2).
+Proof. exact (@l_uint_double_mod_ni). Qed.
+Print Assumptions C01_src_uint_double_mod_ni.
+Theorem C01_src_uint_from_words_ni : forall N arr1 arr2, snd (l_uint_from_words N arr1) = snd (l_uint_from_words N arr2).
+Proof. exact (@l_uint_from_words_ni). Qed.
+Print Assumptions C01_src_uint_from_words_ni.
+Theorem C01_src_uint_from_wide_word_ni : forall N n1 n2, snd (l_uint_from_wide_word N n1) = snd (l_uint_from_wide_word N n2).
+Proof. exact (@l_uint_from_wide_word_ni). Qed.
+Print Assumptions C01_src_uint_from_wide_word_ni.
+Theorem C01_src_nz_limb_new_unwrap_ni : forall n1 n2, nz_limb n1 -> nz_limb n2 -> snd (l_nz_limb_new_unwrap n1) = snd (l_nz_limb_new_unwrap n2).
+Proof. exact (@l_nz_limb_new_unwrap_ni). Qed.
+Print Assumptions C01_src_nz_limb_new_unwrap_ni.
+Theorem C01_src_mul_rem_ni : forall a1 b1 d1 a2 b2 d2, snd (l_mul_rem a1 b1 d1) = snd (l_mul_rem a2 b2 d2).
+Proof. exact (@l_mul_rem_ni). Qed.
+Print Assumptions C01_src_mul_rem_ni.
+Theorem C01_src_mac_by_limb_ni : forall N a1 b1 c1 carry1 a2 b2 c2 carry2, snd (l_mac_by_limb N a1 b1 c1 carry1) = snd (l_mac_by_limb N a2 b2 c2 carry2).
+Proof. exact (@l_mac_by_limb_ni). Qed.
+Print Assumptions C01_src_mac_by_limb_ni.
+Theorem C01_src_uint_mul_mod_special_ni : forall lx N c self1 rhs1 self2 rhs2, lx_public lx -> length self1 = length self2 -> length rhs1 = length rhs2 ->
+  snd (l_uint_mul_mod_special lx N self1 rhs1 c) = snd (l_uint_mul_mod_special lx N self2 rhs2 c).
+Proof. exact (@l_uint_mul_mod_special_ni). Qed.
+Print Assumptions C01_src_uint_mul_mod_special_ni.
+Theorem C01_src_split_mul_assumption_satisfiable : lx_public (fun N a b => l_schoolbook_multiplication a b (repeat 0 N) (repeat 0 N)).
+Proof. exact (@lx_public_schoolbook). Qed.
+Print Assumptions C01_src_split_mul_assumption_satisfiable.
+
+From CB Require Import Src.LeakIntDiv Src.LeakIntDivP.
+(** ** Src/LeakIntDiv.v *)
+Theorem C01_src_int_MAX_ni : forall N, snd (l_int_MAX N) = snd (l_int_MAX N).
+Proof. exact (@l_int_MAX_ni). Qed.
+Print Assumptions C01_src_int_MAX_ni.
+Theorem C01_src_int_MIN_ni : forall N, snd (l_int_MIN N) = snd (l_int_MIN N).
+Proof. exact (@l_int_MIN_ni). Qed.
+Print Assumptions C01_src_int_MIN_ni.
+Theorem C01_src_int_from_bits_ni : forall N1 value1 N2 value2, snd (l_int_from_bits N1 value1) = snd (l_int_from_bits N2 value2).
+Proof. exact (@l_int_from_bits_ni). Qed.
+Print Assumptions C01_src_int_from_bits_ni.
+Theorem C01_src_uint_as_int_ni : forall N1 self1 N2 self2, snd (l_uint_as_int N1 self1) = snd (l_uint_as_int N2 self2).
+Proof. exact (@l_uint_as_int_ni). Qed.
+Print Assumptions C01_src_uint_as_int_ni.
+Theorem C01_src_int_new_from_abs_sign_ni : forall N abs1 is_negative1 abs2 is_negative2, snd (l_int_new_from_abs_sign N abs1 is_negative1) = snd (l_int_new_from_abs_sign N abs2 is_negative2).
+Proof. exact (@l_int_new_from_abs_sign_ni). Qed.
+Print Assumptions C01_src_int_new_from_abs_sign_ni.
+Theorem C01_src_nz_uint_new_unwrap_ni : forall N n1 n2, nz_uint N n1 -> nz_uint N n2 -> snd (l_nz_uint_new_unwrap N n1) = snd (l_nz_uint_new_unwrap N n2).
+Proof. exact (@l_nz_uint_new_unwrap_ni). Qed.
+Print Assumptions C01_src_nz_uint_new_unwrap_ni.
+Theorem C01_src_nz_int_abs_sign_ni : forall N self1 self2, nz_int N self1 -> nz_int N self2 -> snd (l_nz_int_abs_sign N self1) = snd (l_nz_int_abs_sign N self2).
+Proof. exact (@l_nz_int_abs_sign_ni). Qed.
+Print Assumptions C01_src_nz_int_abs_sign_ni.
+Theorem C01_src_int_div_rem_base_ni : forall N self1 rhs1 self2 rhs2, nz_int N rhs1 -> nz_int N rhs2 ->
+  pubview (snd (l_int_div_rem_base N self1 rhs1)) = pubview (snd (l_int_div_rem_base N self2 rhs2)).
+Proof. exact (@l_int_div_rem_base_pv). Qed.
+Print Assumptions C01_src_int_div_rem_base_ni.
+Theorem C01_src_int_checked_div_rem_ni : forall N self1 rhs1 self2 rhs2, nz_int N rhs1 -> nz_int N rhs2 ->
+  pubview (snd (l_int_checked_div_rem N self1 rhs1)) = pubview (snd (l_int_checked_div_rem N self2 rhs2)).
+Proof. exact (@l_int_checked_div_rem_pv). Qed.
+Print Assumptions C01_src_int_checked_div_rem_ni.
+Theorem C01_src_int_rem_ni : forall N self1 rhs1 self2 rhs2, nz_int N rhs1 -> nz_int N rhs2 ->
+  pubview (snd (l_int_rem N self1 rhs1)) = pubview (snd (l_int_rem N self2 rhs2)).
+Proof. exact (@l_int_rem_pv). Qed.
+Print Assumptions C01_src_int_rem_ni.
+Theorem C01_src_int_checked_div_rem_floor_ni : forall N self1 rhs1 self2 rhs2, nz_int N rhs1 -> nz_int N rhs2 ->
+  pubview (snd (l_int_checked_div_rem_floor N self1 rhs1)) = pubview (snd (l_int_checked_div_rem_floor N self2 rhs2)).
+Proof. exact (@l_int_checked_div_rem_floor_pv). Qed.
+Print Assumptions C01_src_int_checked_div_rem_floor_ni.
+Theorem C01_src_int_div_rem_base_uint_ni : forall N self1 rhs1 self2 rhs2, length rhs1 = length rhs2 ->
+  pubview (snd (l_int_div_rem_base_uint N self1 rhs1)) = pubview (snd (l_int_div_rem_base_uint N self2 rhs2)).
+Proof. exact (@l_int_div_rem_base_uint_pv). Qed.
+Print Assumptions C01_src_int_div_rem_base_uint_ni.
+Theorem C01_src_int_div_rem_uint_ni : forall N self1 rhs1 self2 rhs2, length rhs1 = length rhs2 ->
+  pubview (snd (l_int_div_rem_uint N self1 rhs1)) = pubview (snd (l_int_div_rem_uint N self2 rhs2)).
+Proof. exact (@l_int_div_rem_uint_pv). Qed.
+Print Assumptions C01_src_int_div_rem_uint_ni.
+Theorem C01_src_int_div_uint_ni : forall N self1 rhs1 self2 rhs2, length rhs1 = length rhs2 ->
+  pubview (snd (l_int_div_uint N self1 rhs1)) = pubview (snd (l_int_div_uint N self2 rhs2)).
+Proof. exact (@l_int_div_uint_pv). Qed.
+Print Assumptions C01_src_int_div_uint_ni.
+Theorem C01_src_int_rem_uint_ni : forall N self1 rhs1 self2 rhs2, length rhs1 = length rhs2 ->
+  pubview (snd (l_int_rem_uint N self1 rhs1)) = pubview (snd (l_int_rem_uint N self2 rhs2)).
+Proof. exact (@l_int_rem_uint_pv). Qed.
+Print Assumptions C01_src_int_rem_uint_ni.
+Theorem C01_src_int_div_rem_floor_uint_ni : forall N self1 rhs1 self2 rhs2, length rhs1 = length rhs2 ->
+  pubview (snd (l_int_div_rem_floor_uint N self1 rhs1)) = pubview (snd (l_int_div_rem_floor_uint N self2 rhs2)).
+Proof. exact (@l_int_div_rem_floor_uint_pv). Qed.
+Print Assumptions C01_src_int_div_rem_floor_uint_ni.
+Theorem C01_src_int_div_floor_uint_ni : forall N self1 rhs1 self2 rhs2, length rhs1 = length rhs2 ->
+  pubview (snd (l_int_div_floor_uint N self1 rhs1)) = pubview (snd (l_int_div_floor_uint N self2 rhs2)).
+Proof. exact (@l_int_div_floor_uint_pv). Qed.
+Print Assumptions C01_src_int_div_floor_uint_ni.
+Theorem C01_src_int_normalized_rem_ni : forall N self1 rhs1 self2 rhs2, length rhs1 = length rhs2 ->
+  pubview (snd (l_int_normalized_rem N self1 rhs1)) = pubview (snd (l_int_normalized_rem N self2 rhs2)).
+Proof. exact (@l_int_normalized_rem_pv). Qed.
+Print Assumptions C01_src_int_normalized_rem_ni.
+Theorem C01_src_nz_int_satisfiable : nz_int 2 [3; 0] /\ nz_int 2 [2 ^ 64 - 1; 2 ^ 64 - 1] /\ nz_int 2 [0; 1].
+Proof. exact nz_int_examples. Qed.
+Print Assumptions C01_src_nz_int_satisfiable.
+Theorem C01_src_int_checked_div_rem_strict_refuted : exists N self rhs1 rhs2, nz_int N rhs1 /\ nz_int N rhs2 /\
+  snd (l_int_checked_div_rem N self rhs1) <> snd (l_int_checked_div_rem N self rhs2).
+Proof. exact l_int_checked_div_rem_strict_refuted. Qed.
+Print Assumptions C01_src_int_checked_div_rem_strict_refuted.
+Theorem C01_src_int_checked_div_rem_floor_strict_refuted : exists N self rhs1 rhs2, nz_int N rhs1 /\ nz_int N rhs2 /\
+  snd (l_int_checked_div_rem_floor N self rhs1) <> snd (l_int_checked_div_rem_floor N self rhs2).
+Proof. exact l_int_checked_div_rem_floor_strict_refuted. Qed.
+Print Assumptions C01_src_int_checked_div_rem_floor_strict_refuted.
+Theorem C01_src_int_div_rem_uint_strict_refuted : exists N self rhs1 rhs2, length rhs1 = length rhs2 /\
+  snd (l_int_div_rem_uint N self rhs1) <> snd (l_int_div_rem_uint N self rhs2).
+Proof. exact l_int_div_rem_uint_strict_refuted. Qed.
+Print Assumptions C01_src_int_div_rem_uint_strict_refuted.
+
+(** ** the new traces are not trivial: one row of add_mul_carry on 2 limbs; the CIOS loop of almost_montgomery_mul on 2 limbs emits
+    the same 48 events for two unrelated operand sets *)
+Example C01_src_add_mul_carry_trace :
+  snd (l_add_mul_carry [1; 2] [3; 4] 5) = [ev_br false; ev_trip 2; ev_ix 0; ev_ix 0; ev_ix 0; ev_ix 1; ev_ix 1; ev_ix 1].
+Proof. vm_compute. reflexivity. Qed.
+Example C01_src_amm_nonvacuous :
+  Nat.ltb 40 (length (snd (l_almost_montgomery_mul [0; 0] [1; 2] [3; 4] [5; 6] 7))) = true /\
+  snd (l_almost_montgomery_mul [0; 0] [1; 2] [3; 4] [5; 6] 7) = snd (l_almost_montgomery_mul [9; 9] [2 ^ 64 - 1; 0] [0; 2 ^ 63] [1; 1] 0).
+Proof. vm_compute. split; reflexivity. Qed.
